@@ -205,6 +205,10 @@ class Ref:
 # ---------------------------------------------------------------------------------------------------------------
 # the real objects
 
+class BadOp(BaseException):
+    pass
+
+
 class Session:
     def __init__(self, uname, model_name="m"):
         from maltoolbox.model import Model, AttackerAttachment
@@ -294,12 +298,10 @@ class Session:
             elif kind == "remove_attacker":    m.remove_attacker(self.atts[op[1]])
             elif kind == "add_ep":             self.atts[op[1]].add_entry_point(self.cands[op[2]], op[3])
             elif kind == "remove_ep":          self.atts[op[1]].remove_entry_point(self.cands[op[2]], op[3])
-            else: raise RuntimeError("unknown op %r" % (op,))
-        except RuntimeError:
+            else: raise BadOp("unknown op %r" % (op,))
+        except BadOp:
             raise
-        except RecursionError as e:
-            return e
-        except Exception as e:      # noqa: the property decides whether raising was right
+        except Exception as e:      # (incl. RecursionError) the property decides whether raising was right
             return e
         return None
 
